@@ -245,7 +245,14 @@ NextF == \E k \in Keys : \E j \in 1..4 :
            \/ FailWrite("del", k, NoVal, j) \/ FailWrite("delsub", k, NoVal, j)
 NextFSet == \E k \in Keys : \E j \in 1..3 : \E v \in Vals :
               Cardinality(Live(contents) \cup {k}) <= MaxLive /\ FailWrite("set", k, v, j)
+\* the trie is pointed back at a root it had before (trie.root_hash = h, or trie.root_node = body):
+\* a binary trie never deletes, so every earlier root stays usable; writes afterwards fork the history
+Checkout(p) == /\ p \in past /\ <<p.r, p.c>> # <<root, contents>>
+               /\ root' = p.r /\ contents' = p.c /\ UNCHANGED <<db, past>>
+               /\ Log([a |-> "checkout", k |-> <<>>, v |-> JV(NoVal), ok |-> TRUE, root |-> JB(p.r)])
+NextC == \E p \in past : Checkout(p)
 Spec == Init /\ [][Next]_vars
+SpecC == Init /\ [][Next \/ NextC]_vars
 SpecR == Init /\ [][Next \/ NextR]_vars
 SpecF == Init /\ [][Next \/ NextF]_vars
 
